@@ -355,3 +355,9 @@ def run(program, res, tier):
     _s1_s2(program, res)
     _s3(program, res)
     _s4(program, res)
+    # S5: printing keeps the grouping the parser needs (shared with C12)
+    from ..report import Relabel
+    from . import c12
+    res.rule("C13-S5", "printed expressions keep grouping: inline forms honour want_inline_parens, is_in_parens is claimed honestly")
+    c12._s2(program, Relabel(res, {"*": "C13-S5"}))
+    c12._s2b(program, Relabel(res, {"*": "C13-S5"}), rule="C13-S5")
